@@ -128,6 +128,53 @@ class SimFile:
         mv[: len(data)] = data
         return len(data)
 
+    # the rest of the binary file API (io.BufferedReader / BufferedWriter), so that the stand-in is never the reason for a failure
+    def peek(self, size=0) -> bytes:
+        n = size if size and size > 0 else 4096
+        pos = os.lseek(self.fd, 0, os.SEEK_CUR)
+        return os.pread(self.fd, n, pos)
+
+    def read1(self, size=-1) -> bytes:
+        return self.read(size if size is not None and size >= 0 else 1 << 16)
+
+    def readinto1(self, buf) -> int:
+        return self.readinto(buf)
+
+    def readall(self) -> bytes:
+        return self.read(-1)
+
+    def readlines(self, hint=-1):
+        out = []
+        while True:
+            line = self.readline()
+            if not line:
+                return out
+            out.append(line)
+
+    def __iter__(self):
+        return self
+
+    def __next__(self):
+        line = self.readline()
+        if not line:
+            raise StopIteration
+        return line
+
+    def writelines(self, lines):
+        for line in lines:
+            self.write(line)
+
+    def isatty(self):
+        return False
+
+    @property
+    def name(self):
+        return self.path
+
+    @property
+    def raw(self):
+        return self
+
     # -- misc ---------------------------------------------------------
     def flush(self):
         pass
